@@ -50,6 +50,16 @@ def make_existing(path, layout, nrg, required=False, cat=False):
         fastparquet.write(path, df, **kw)
     elif layout == "hive":
         fastparquet.write(path, df, file_scheme="hive", **kw)
+    elif layout == "hive-hole":
+        # part numbers with a hole: one more row group is written and the second one removed again
+        df = base_frame(n + 4)
+        if cat:
+            df["c"] = pd.Categorical(df["c"], categories=["c0", "c1", "c2"])
+        kw["row_group_offsets"] = list(range(0, n + 4, 4))
+        fastparquet.write(path, df, file_scheme="hive", **kw)
+        pf = fastparquet.ParquetFile(path)
+        pf.remove_row_groups([pf.row_groups[1]])
+        df = pd.concat([df.iloc[:4], df.iloc[8:]], ignore_index=True)
     else:
         fastparquet.write(path, df, file_scheme="hive", partition_on=["p"], **kw)
     return df
@@ -58,7 +68,7 @@ def make_existing(path, layout, nrg, required=False, cat=False):
 def rejections(layout):
     """(name, kind, builder(colpos, rgpos) -> (callable(path, fs), up_front: bool))"""
     import fastparquet
-    hive_kw = {} if layout == "simple" else ({"file_scheme": "hive"} if layout == "hive" else {"file_scheme": "hive", "partition_on": ["p"]})
+    hive_kw = {} if layout == "simple" else ({"file_scheme": "hive"} if layout in ("hive", "hive-hole") else {"file_scheme": "hive", "partition_on": ["p"]})
 
     def append(df, fs=None, **kw):
         def op(path, fsx):
@@ -142,6 +152,10 @@ def rejections(layout):
             fastparquet.write(path, base_frame(4, 100), append=True, file_scheme="hive", partition_on=po, write_index=False)
         out.append(("append-wrong-partitioning", "upfront", wrong_part, True))
     out.append(("unknown-codec", "late", append(base_frame(8, 100), compression="NOPE", row_group_offsets=[0, 4]), False))
+    # an unknown codec named for ONE column only: the failure comes after earlier columns have been written
+    for col in ("b", "c"):
+        out.append((f"unknown-codec-column-{col}", "late",
+                    append(base_frame(8, 100), compression={"a": "GZIP", col: "NOSUCHCODEC", "_default": None}, row_group_offsets=[0, 4]), False))
     out.append(("bad-file-scheme-name", "upfront",
                 lambda path, fsx: fastparquet.write(path, base_frame(4, 100), append=True, file_scheme="flatland"), True))
     # read-side rejections
@@ -155,7 +169,7 @@ def run(ctx, report):
     report.rule = ("every kind of rejection x offending column position (first/middle/last) x row group (first/later) x existing "
                    "dataset (single file, hive, hive+partition; 1..3 row groups); non-trivial = existing dataset with >=2 row groups; "
                    "distinct by (rejection, layout, row groups)")
-    layouts = ["simple", "hive", "hive-part"]
+    layouts = ["simple", "hive", "hive-part", "hive-hole"]
     nrgs = [2] if ctx.quick else [1, 2, 3]
     for layout in layouts:
         for nrg in nrgs:
